@@ -613,23 +613,14 @@ bool ReadEnumViewFromTextStream(View *view, Stream *stream) {
   ::std::string token;
   if (!ReadToken(stream, &token)) return false;
   if (token.empty()) return false;
-  if (::std::isdigit(token[0])) {
-    ::std::uint64_t value;
+  if (::std::isdigit(token[0]) || token[0] == '-') {
+    // Decode into the enum's underlying type, so that DecodeInteger rejects
+    // numbers which the enum cannot hold instead of letting them wrap.  This
+    // is the inverse of WriteEnumViewToTextStream, which writes the value as
+    // its underlying type.
+    typename ::std::underlying_type<typename View::ValueType>::type value;
     if (!DecodeInteger(token, &value)) return false;
-    // TODO(bolms): Fix the static_cast<ValueType> for signed ValueType.
-    // TODO(bolms): Should values between 2**63 and 2**64-1 actually be
-    // allowed in the text format when ValueType is signed?
-    const auto enum_value = static_cast<typename View::ValueType>(value);
-    // Reject numbers that do not fit in the enum's underlying type, instead of
-    // silently truncating them.
-    if (static_cast</**/ ::std::uint64_t>(enum_value) != value) return false;
-    return view->TryToWrite(enum_value);
-  } else if (token[0] == '-') {
-    ::std::int64_t value;
-    if (!DecodeInteger(token, &value)) return false;
-    const auto enum_value = static_cast<typename View::ValueType>(value);
-    if (static_cast</**/ ::std::int64_t>(enum_value) != value) return false;
-    return view->TryToWrite(enum_value);
+    return view->TryToWrite(static_cast<typename View::ValueType>(value));
   } else {
     typename View::ValueType value;
     if (!TryToGetEnumFromName(token.c_str(), &value)) return false;
